@@ -52,7 +52,7 @@ static std::vector<CheckSpec> &specs() {
 	add("C04", "exploration", {{"trust", "C04", 6000, 300000}});
 	add("C11", "exploration", {{"history", "C11", 6000, 300000}, {"trust", "C11", 1500, 60000}});
 	add("C16", "exploration", {{"history", "C16", 6000, 300000}});
-	add("C19", "fault_enumeration", {{"alloc", "C19", 0, 0}}, 180, 2400);
+	add("C19", "fault_enumeration", {{"alloc", "C19", 0, 0}}, 420, 2400);
 	return s;
 }
 
